@@ -16,6 +16,7 @@ import ClarabelProofs.Lemmas.PrintWrite
 import ClarabelProofs.Lemmas.PrintHeader
 import ClarabelProofs.Lemmas.PrintHeaderData
 import ClarabelProofs.Lemmas.PrintHeaderLoop
+import ClarabelProofs.Lemmas.PrintWholeLog
 
 namespace Clarabel.C20
 open Clarabel Clarabel.Loop Clarabel.Print
@@ -641,5 +642,125 @@ example :
                cones := [(.Nonnegative, 1)] } := by
   decide
 
+
+/-! ### round 5: the whole log at token level, and the echo read back -/
+
+/-- [S] `C20.status_line_tokens`: `print_status` writes exactly the tokens `rowToks` — the
+iteration count right-aligned in three columns, the seven cells `pcost dcost gap pres dres k/t μ`
+each followed by two blanks, the step length (rows with `iterations > 0`) or the placeholder
+` ------   ` (first row), and a newline; a row that does not have eight cells is refused and
+nothing is written. -/
+theorem status_line_tokens (iterations : Nat) (cells : Array String) :
+    (cells.size = 8 → statusLine iterations cells = .ok (renderToks (rowToks iterations cells))) ∧
+    (cells.size ≠ 8 → statusLine iterations cells = .error (.err "cells")) :=
+  ⟨statusLine_eq_rowToks iterations cells, statusLine_bad iterations cells⟩
+
+/-- [S] `C20.whole_log_eq_render`: **the log of a verbose solve is the rendering of the print
+calls of the loop skeleton, in program order.**  Let `rows`, `status` be the rows and the final
+status of a run (for a run of the loop skeleton, `r.rows` and `r.info.status`: the events
+`eventsOf r.rows r.info.status` of `C20.silent` / `C20.footer`), `cellFmt` the float formatting
+of a row (a parameter, like `FloatFmt`), every formatted row having its eight cells.  Then
+1. *token level* (before any `String` concatenation): the token list of the whole log —
+   banner, `configurationToks`, table header, `rowToks` of every row, `footerToks` — **equals**
+   the concatenation of the token lists of the events `banner, configuration, statusHeader,
+   status row₁ …, footer status`;
+2. `wholeLog` (banner ++ configuration ++ header, then `out := out ++ line` in an `Except` loop,
+   then the footer) returns the concatenation `renderToks` of that token list;
+3. *byte level*: for every encoding `enc` of text into bytes that respects concatenation
+   (`EncHom`: `enc "" = []`, `enc (a ++ b) = enc a ++ enc b` — congruence of `String.join`; UTF-8
+   is one, `utf8_hom`), what a stdout / file / buffer / stream target has received after
+   `runEvents` with the renderer "encode each call's tokens" is what it had before followed by
+   `enc` of the string `wholeLog` returns; in particular `get_print_buffer` of a fresh buffer
+   returns exactly the UTF-8 bytes of `wholeLog`. -/
+theorem whole_log_eq_render {β : Type} (fmt : FloatFmt β) (lin : LinearSolverInfo) (set : Settings β)
+    (s : Summary) (version : String) (debug : Bool) (cellFmt : Row β → RowText) (rows : List (Row β))
+    (status : Status) (t : β) (hv : set.verbose = true) (hcells : ∀ r ∈ rows, (cellFmt r).cells.size = 8) :
+    wholeToks fmt lin set s version debug (rows.map cellFmt) status t
+      = (eventsOf rows status).flatMap (eventToks fmt lin set s version debug cellFmt t)
+    ∧ wholeLog fmt lin set s version debug (rows.map cellFmt) status t
+      = .ok (renderToks ((eventsOf rows status).flatMap (eventToks fmt lin set s version debug cellFmt t)))
+    ∧ (∀ (enc : String → Bytes), EncHom enc → ∀ tgt : PrintTarget, tgt ≠ .sink → ∀ log,
+        wholeLog fmt lin set s version debug (rows.map cellFmt) status t = .ok log →
+        (runEvents set.verbose (logRenderer enc fmt lin set s version debug cellFmt t) tgt
+          (eventsOf rows status)).delivered = tgt.delivered ++ enc log)
+    ∧ (∀ log, wholeLog fmt lin set s version debug (rows.map cellFmt) status t = .ok log →
+        (runEvents set.verbose (logRenderer utf8 fmt lin set s version debug cellFmt t) (.buffer [])
+          (eventsOf rows status)).getPrintBuffer = .ok (utf8 log)) := by
+  have hrows : ∀ r ∈ rows.map cellFmt, r.cells.size = 8 := by
+    intro r hr
+    obtain ⟨x, hx, rfl⟩ := List.mem_map.mp hr
+    exact hcells x hx
+  refine ⟨wholeToks_eq_events fmt lin set s version debug cellFmt rows status t, ?_, ?_, ?_⟩
+  · rw [wholeLog_eq_renderToks fmt lin set s version debug _ status t hv hrows, wholeToks_eq_events]
+  · intro enc henc tgt htgt log hlog
+    exact delivered_eq_wholeLog enc henc fmt lin set s version debug cellFmt rows status t hv log hlog tgt htgt
+  · intro log hlog
+    have hd := delivered_eq_wholeLog utf8 utf8_hom fmt lin set s version debug cellFmt rows status t hv
+      log hlog (.buffer []) (by simp)
+    rw [hv] at hd ⊢
+    obtain ⟨b, hb⟩ := runEvents_buffer (logRenderer utf8 fmt lin set s version debug cellFmt t)
+      (eventsOf rows status) []
+    rw [hb] at hd ⊢
+    simp only [PrintTarget.delivered, List.nil_append] at hd
+    rw [hd]; rfl
+
+/-- [S] `C20.echo_tokens_parse_back`: **the settings echo, read as a finite map label ↦ value, is
+the settings record.**  The 25 labels of the echo are pairwise distinct (`echoLabels_nodup`) and
+every labelled token carries exactly one value, so "the value shown under a label"
+(`lookupFld`) is well defined: a label shows `v` iff the pair occurs among the labelled tokens.
+Reading the map back — `max_iter`, `iterative_refinement_max_iter`, `equilibrate_max_iter` with the
+decimal parser, the four `on`/`false` switches with the inverse of `_bool_on_off`,
+`direct`/`indirect`, the solver name as is — returns exactly the integer / boolean / text fields
+of the records the echo was printed from (`echoExact`), and the fourteen float cells are the
+fields at the resolution of their formats (`echoFloats`).  `C20.settings_echo_determines` is the
+corollary "equal token lists ⇒ equal records". -/
+theorem echo_tokens_parse_back {β : Type} (fmt : FloatFmt β) (lin : LinearSolverInfo) (set : Settings β) :
+    ((fieldsOf (settingsToks fmt lin set)).map Prod.fst = echoLabels ∧ echoLabels.Nodup)
+    ∧ (∀ n v, lookupFld (settingsToks fmt lin set) n = some v ↔ (n, v) ∈ fieldsOf (settingsToks fmt lin set))
+    ∧ echoRead (settingsToks fmt lin set) = some (echoExact lin set)
+    ∧ echoReadFloats (settingsToks fmt lin set) = some (echoFloats fmt set) :=
+  ⟨⟨settingsToks_labels fmt lin set, echoLabels_nodup⟩,
+   lookup_iff_mem_of_nodup _ (by rw [settingsToks_labels]; exact echoLabels_nodup),
+   echoRead_settingsToks fmt lin set, echoReadFloats_settingsToks fmt lin set⟩
+
+/-- `settings_echo_determines` from `echo_tokens_parse_back`: the reader is a function of the
+labelled tokens -/
+example {β : Type} (fmt : FloatFmt β) (lin lin' : LinearSolverInfo) (s s' : Settings β)
+    (h : fieldsOf (settingsToks fmt lin s) = fieldsOf (settingsToks fmt lin' s')) :
+    echoExact lin s = echoExact lin' s' := by
+  have h1 := (echo_tokens_parse_back fmt lin s).2.2.1
+  have h2 := (echo_tokens_parse_back fmt lin' s').2.2.1
+  unfold echoRead lookupFld at h1 h2
+  rw [h] at h1
+  exact Option.some.inj (h1.symm.trans h2)
+
+/-- non-vacuity of `whole_log_eq_render`: a formatting with eight cells per row, the settings
+record of the counterexample section, two rows; the hypothesis of the byte-level clause
+(`wholeLog … = .ok log`) is satisfied by clause 2, and UTF-8 is an `EncHom` -/
+def exFmt : FloatFmt Int :=
+  { e1 := toString, f3 := toString, f1 := toString, dbg := toString, isInfinite := fun _ => false,
+    duration := toString, sizeOf := 8 }
+
+def exCellFmt (r : Row Int) : RowText :=
+  { iterations := r.iterations,
+    cells := #[toString r.costPrimal, toString r.costDual, toString r.gap, toString r.resPrimal,
+               toString r.resDual, toString r.ktratio, toString r.mu, toString r.stepLength] }
+
+example (rows : List (Row Int)) (st : Status) :
+    ∃ log, wholeLog exFmt ⟨"qdldl", 1, true⟩ Counterexample.set ⟨none, none, 1, 1, 0, 1, [(.Nonnegative, 1)]⟩
+        "0.11.1" false (rows.map exCellFmt) st 7 = .ok log
+      ∧ (runEvents true (logRenderer utf8 exFmt ⟨"qdldl", 1, true⟩ Counterexample.set
+          ⟨none, none, 1, 1, 0, 1, [(.Nonnegative, 1)]⟩ "0.11.1" false exCellFmt 7) (.buffer [])
+          (eventsOf rows st)).getPrintBuffer = .ok (utf8 log) := by
+  have h := whole_log_eq_render exFmt ⟨"qdldl", 1, true⟩ Counterexample.set
+    ⟨none, none, 1, 1, 0, 1, [(.Nonnegative, 1)]⟩ "0.11.1" false exCellFmt rows st 7 rfl (fun _ _ => rfl)
+  exact ⟨_, h.2.1, h.2.2.2 _ h.2.1⟩
+
+example : EncHom utf8 := utf8_hom
+
+/-- a concrete row: the first row of a table shows the placeholder instead of the step length -/
+example : statusLine 0 #["a", "b", "c", "d", "e", "f", "g", "h"]
+    = .ok "  0  a  b  c  d  e  f  g   ------   \n" := by
+  rw [(status_line_tokens 0 _).1 rfl]; rfl
 
 end Clarabel.C20
